@@ -422,7 +422,7 @@ Definition inplace_roots (args : list (ref * bool)) : list ref := map fst (filte
 Lemma reach_closed h roots : closed_heap h -> closed_args h roots -> forall o, reach h roots o -> o < length h.
 Proof. intros Hh Ha o H. induction H; eauto. Qed.
 
-Lemma env0_rel h0 U : forall args,
+Lemma env0_rel (h0 : heap) (U : nat -> Prop) : forall args,
   (forall r o, In (r, true) args -> target r = Some o -> U o) ->
   forall x, rel h0 U h0 (aenv0 (map snd args) x) (env0 (map fst args) x).
 Proof.
@@ -431,6 +431,14 @@ Proof.
   - destruct x; simpl.
     + destruct b; simpl; auto. destruct r as [|o2 offs]; auto. left. eapply H; [left; reflexivity|reflexivity].
     + apply IH. intros r0 o0 Hin Ht. eapply H; eauto. right; exact Hin.
+Qed.
+
+Lemma env0_rel_prot (h0 : heap) (U : nat -> Prop) : forall args x,
+  rel h0 U h0 (aenv0 (repeat false (length args)) x) (env0 args x).
+Proof.
+  unfold env0, aenv0. induction args as [|r args IH]; intros x; simpl.
+  - destruct x; reflexivity.
+  - destruct x; simpl; [exact I|]. apply IH.
 Qed.
 
 (* General form: arguments flagged "in place" may be written (and whatever is reachable from them);
@@ -475,9 +483,7 @@ Proof.
     - intros k ao Hk. destruct k; discriminate.
     - reflexivity.
     - intros o' it [].
-    - intros x. unfold env0, aenv0. revert x. induction args as [|r args IH]; intros x; simpl.
-      + destruct x; reflexivity.
-      + destruct x; simpl; [exact I|]. apply IH. }
+    - apply env0_rel_prot. }
   pose proof (simulation h0 (fun _ => False) HU c _ _ _ _ _ _ E Hinv) as (_ & _ & H3 & _ & _).
   apply H3; auto.
 Qed.
@@ -487,6 +493,14 @@ Corollary frame_reachable : forall (c : cmd) (args : list ref) (h0 : heap),
   forall o, reach h0 args o -> o < length h0 ->
   nth_error (snd (exec c (env0 args, h0))) o = nth_error h0 o.
 Proof. intros. apply frame; auto. Qed.
+
+Lemma obj_eqb_refl a : obj_eqb a a = true.
+Proof.
+  assert (Hl1 : forall l, list_eqb Nat.eqb l l = true) by (induction l; simpl; auto; rewrite Nat.eqb_refl; auto).
+  assert (Hl2 : forall l, list_eqb Z.eqb l l = true) by (induction l; simpl; auto; rewrite Z.eqb_refl; auto).
+  destruct a; simpl; auto. induction items as [|r items IHi]; simpl; auto.
+  rewrite IHi, andb_true_r. destruct r; simpl; auto. rewrite Nat.eqb_refl, Hl1. reflexivity.
+Qed.
 
 Corollary frame_footprint : forall (c : cmd) (args : list ref) (h0 : heap),
   safe (length args) c = true -> footprint c args h0 = [].
@@ -498,11 +512,7 @@ Proof.
   { induction l as [|o l IH]; intros Hl; simpl; auto.
     rewrite (frame c args h0 Hs o) by (apply Hl; left; auto).
     destruct (nth_error h0 o) as [a|] eqn:E.
-    - assert (obj_eqb a a = true).
-      { assert (Hl1 : forall l, list_eqb Nat.eqb l l = true) by (induction l0; simpl; auto; rewrite Nat.eqb_refl; auto).
-        assert (Hl2 : forall l, list_eqb Z.eqb l l = true) by (induction l0; simpl; auto; rewrite Z.eqb_refl; auto).
-        destruct a; simpl; auto. induction items as [|r items IHi]; simpl; auto.
-        rewrite IHi, andb_true_r. destruct r; simpl; auto. rewrite Nat.eqb_refl, Hl1. reflexivity. }
+    - assert (obj_eqb a a = true) by apply obj_eqb_refl.
       rewrite H. simpl. apply IH. intros; apply Hl; right; auto.
     - exfalso. apply nth_error_None in E. specialize (Hl o (or_introl eq_refl)). lia. }
   apply H. intros o Ho. apply in_seq in Ho. lia.
